@@ -15,14 +15,17 @@ def api_table():
     if _API is None:
         with open(os.path.join(VERIF, "tables", "may_panic_api.json")) as fh:
             t = json.load(fh)
-        _API = [(re.compile(e["pattern"]), e["kind"], e.get("why", "")) for e in t["may_panic"]]
+        _API = [(re.compile(e["pattern"]), e["kind"], e.get("why", ""), re.compile(e["targ0"]) if e.get("targ0") else None) for e in t["may_panic"]]
     return _API
 
 
-def classify_callee(name):
+def classify_callee(name, targs=None):
+    """(kind, why) if the callee is in the may-panic table; rows with `targ0` apply only when the first generic argument matches"""
     s = short(name)
-    for rx, kind, why in api_table():
+    for rx, kind, why, t0 in api_table():
         if rx.search(s):
+            if t0 is not None and not (targs and t0.search(targs[0])):
+                continue
             return kind, why
     return None
 
@@ -147,11 +150,11 @@ def enumerate_sites(fn):
                         continue  # widening: value-preserving
                 sites.append(Site(fn, i, "cast", "%s->%s" % (fr, to), s["line"], stmt=s, exp=s.get("exp", False)))
     for c in fn.calls:
-        cl = classify_callee(c.name)
+        cl = classify_callee(c.name, (c.func.get("res_targs") or c.targs))
         if cl is None and c.target is None and not short(c.name).startswith("std::process::exit"):
             cl = ("panic", "diverging call (panic / abort)")
         if cl is None and c.func.get("path") and c.func.get("path") != c.name:
-            cl = classify_callee(c.func["path"])
+            cl = classify_callee(c.func["path"], c.targs)
         if cl:
             kind, why = cl
             d = short(c.name)
